@@ -52,6 +52,8 @@ type FuncContract struct {
 	NoPanic  bool
 	Trusted  bool // contract assumed at call sites, body not verified (listed in evidence)
 	Extern   bool // method of a dependency package
+	Synth    bool // synthesized by the zero-annotation sweep
+	AllocBound bool // every make in the function is bounded by the unread bytes of its kbin.Reader
 	Pure     bool
 	Loops    map[int]*LoopSpec
 	Sites    []SiteSpec
@@ -96,7 +98,7 @@ type SpecFile struct {
 
 var directiveKW = map[string]bool{
 	"spec": true, "func": true, "extern": true, "mode": true, "requires": true, "ensures": true, "modifies": true,
-	"nopanic": true, "loop": true, "site": true, "ghost": true, "lemma": true, "assume": true,
+	"nopanic": true, "allocbound": true, "loop": true, "site": true, "ghost": true, "lemma": true, "assume": true,
 	"prop": true, "trusted": true, "pure": true, "end": true,
 }
 
@@ -270,6 +272,8 @@ func ParseSpecFile(fset *token.FileSet, f *ast.File) (*SpecFile, error) {
 				}
 			case "nopanic":
 				cur.NoPanic = true
+			case "allocbound":
+				cur.AllocBound = true
 			case "trusted":
 				cur.Trusted = true
 				sf.Assumes = append(sf.Assumes, fmt.Sprintf("%s: trusted contract (%s)", cur.Key, rest))
